@@ -802,7 +802,18 @@ pub fn run_c10(cfg: &Cfg) -> Report {
             2 => 2,
             _ => r.below(30),
         };
-        let rs: Vec<Res> = (0..k).map(|_| gen_res(&mut r)).collect();
+        let mut rs: Vec<Res> = (0..k).map(|_| gen_res(&mut r)).collect();
+        // a quarter of the templates list some descriptor twice (adjacent, or further apart)
+        if !rs.is_empty() && cx.idx % 4 == 0 {
+            let i = r.usize_below(rs.len());
+            let d = rs[i].clone();
+            let at = if r.bool() { i + 1 } else { r.usize_below(rs.len() + 1) };
+            rs.insert(at, d.clone());
+            if r.chance(1, 3) {
+                rs.insert(at, d);
+            }
+            cx.rep.cov("template_with_repeated_descriptor");
+        }
         if template_case(cx, &rs) {
             cx.rep.distinct(&(k, template_payload(&rs).len()));
         }
